@@ -386,7 +386,12 @@ func runWorld(run *rep.Run, rng *rand.Rand, eng, bal string, id int) {
 		if T != S+F {
 			run.Violation("C19/endpoint/total-not-success-plus-failed", fmt.Sprintf("%s: total %d != successes %d + failures %d", n, T, S, F), w2)
 		}
-		if T != seen {
+		// the olla engine also records a failure when it *skips* an endpoint whose breaker is
+		// open (nothing reaches the backend); such skips are not attempts and cannot be counted
+		// from outside, so on that engine only "every attempt at least once" is decidable
+		if eng == "olla" && T > seen && T <= seen+ty.sent {
+			run.Count("olla_recorded_minus_seen_attributed_to_breaker_skips", T-seen)
+		} else if T != seen {
 			k := "attempt-not-recorded"
 			if T > seen {
 				k = "attempt-recorded-more-than-once"
